@@ -494,7 +494,7 @@ func (rt *runtime) convertCallParameter(v Value, t reflect.Type) (reflect.Value,
 					err = fmt.Errorf("couldn't convert property %q of %s: %w", k, t, verr)
 					return false
 				}
-				m.SetMapIndex(reflect.ValueOf(k), v)
+				m.SetMapIndex(reflect.ValueOf(k).Convert(t.Key()), v)
 				return true
 			})
 
